@@ -243,3 +243,15 @@ def run(ctx):
         who = f.info.get("self_adt", "?").split("::")[-1]
         pv = ctx.slicer.local(f, 0)
         ctx.inst("C15.R5", "is_paused_flag/%s" % who, pv.has_const("FLAG_PAUSED") and "BitAnd" in pv.ops and "Ne" in pv.ops and any(n == "pause_flags" for (_, n) in pv.fields), "paused flag = (pause_flags & FLAG_PAUSED) != 0", A._pvs(pv), f.loc(f.raw["span"]))
+
+
+_run_pre_leaves = run
+
+
+def run(ctx):
+    from .kernels import check_leaves
+    try:
+        _run_pre_leaves(ctx)
+    finally:
+        # leaf helpers this property's rules treat by name, pinned as complete path tables
+        check_leaves(ctx, "C15.K", ['panic_cache.update'])
